@@ -2,12 +2,38 @@
 
 Execution-graph correspondence (real ExecutionGraph driven by the scripted
 scheduler vs Model/Exec.lean, state compared after every operation) and the
-C20 monitor of harness/execsim.py evaluated on the real traces."""
+C20 monitor of harness/execsim.py evaluated on the real traces; then the same
+with the real Slurm / LSF adapter in the loop (harness/viasched.py): the scripted
+scheduler's answer is written down as squeue / sacct / bjobs output and exit
+codes (every combination that means "no jobs" or "the query failed", partial
+listings), read by the real `check_jobs`, and the graph gets the adapter's
+answer - faults are injected in a third of these polls."""
 import execprop
+import execsim as E
+from corr import compare, judge, account
 
 LEVEL = "proof"
-RULE = execprop.RULE
+RULE = (execprop.RULE + "; plus the same scenarios with the real Slurm / LSF `check_jobs` between the scripted "
+        "scheduler and the graph (all steps scheduled, 20% NOJOBS and 15% ERROR polls, every exit-code "
+        "combination of squeue/sacct/bjobs with that meaning)")
 
 
 def run(ctx, escalated=False):
-    execprop.run(ctx, "C20", escalated)
+    quick = ctx.tier == "quick" and not escalated
+    cases = execprop.run(ctx, "C20", escalated, finish=False)
+    for k in range(600 if quick else 12000):
+        scn = E.gen_scenario(ctx.rng, maxn=6)
+        scn["dry"] = 0
+        scn["sched"] = [1] * scn["n"]
+        scn["faulty"] = 1
+        scn["via"] = ("slurm", "lsf")[k % 2]
+        scn["via_seed"] = ctx.rng.randint(0, 10 ** 9)
+        c = execprop.run_one(ctx, "C20", scn, rng=ctx.rng)
+        cases.append(c)
+        ctx.count("via:" + scn["via"])
+        for o in c.trace:
+            if o.op["op"] == "poll":
+                ctx.count("via-code:%s:%s" % (scn["via"], o.op["code"]))
+    diffs = compare(cases)
+    account(ctx, cases)
+    judge(ctx, cases, diffs, "execution-graph+adapters", shrink=execprop.shrink_factory(ctx, "C20"))
